@@ -75,6 +75,9 @@ func genBmCase(t *rapid.T, maxOps int) bmCase {
 	n := rapid.IntRange(4, maxOps).Draw(t, "nops")
 	for i := 0; i < n; i++ {
 		op := bmOp{Kind: rapid.SampledFrom(bmKindsGen).Draw(t, "kind")}
+		if rapid.IntRange(0, 399).Draw(t, "floodRoll") == 137 { // (rapid favours the bounds of a range: an inner value keeps this rare)
+			op.Kind = "flood"
+		}
 		op.U = rapid.IntRange(0, 2).Draw(t, "u")
 		op.Tok = rapid.SampledFrom([]int{0, 1, 1, 1, 2, 2}).Draw(t, "tok")
 		op.Chain = rapid.SampledFrom([]int{0, 0, 1, 2}).Draw(t, "chain")
@@ -120,6 +123,16 @@ func genBmCase(t *rapid.T, maxOps int) bmCase {
 				c.Ops = append(c.Ops, b)
 			}
 			continue
+		}
+		if op.Kind == "flood" {
+			// more queued transfers of one token than a batch takes (the batch size is 100), then a batch
+			k := rapid.IntRange(99, 103).Draw(t, "flood")
+			for j := 0; j < k; j++ {
+				snd := op
+				snd.Kind, snd.U, snd.Idx, snd.EVM, snd.Amt, snd.Fee = "send", j%3, j%7, false, int64(1+j%5), int64(1+j%3)
+				c.Ops = append(c.Ops, snd)
+			}
+			op.Kind, op.Amt, op.Fee = "batch", 0, 1
 		}
 		if op.Kind == "sendbatch" {
 			// one to three transfers followed by a batch request for their token
@@ -712,6 +725,9 @@ func runBridgeMachine(c bmCase, which string, rec *ev.Recorder) *Failure {
 				}
 				s.batches[bmKey(ch, nb.BatchNonce)] = mb
 				s.labels["batch"] = true
+				if len(nb.Transactions) >= 100 {
+					s.labels["full-batch"] = true
+				}
 			}
 		case "bridgecall":
 			if t.Kind == sim.KindExternal && isKnown(which+"/claim-handler-panic/keeper.Keeper.HandleOutgoingBridgeCallRefund/externally-owned") {
